@@ -90,6 +90,15 @@ class Hist:
                 for k in ("k1", "k2", "k3", "zz"):
                     got = lookup_query_metadata(r["s"], k)
                     exp = r["qmd"].get(k)
+                    # the spec function the deductive proof of the finder refers to, run natively
+                    import qmd as spec_qmd
+                    hits = spec_qmd.qmd_hits(r["s"].query_ast, k)
+                    self.t.contract("C16: lookup == last(qmd_hits(query, key))  (spec, native)")
+                    if got != (hits[-1] if hits else None):
+                        self.t.violation("lookup_query_metadata:ensures result == last(qmd_hits)",
+                                         f"stream #{i} ({r['desc']}): key {k!r} gives {got!r}, spec "
+                                         f"says {hits!r}", hist, hits, got,
+                                         {"kind": "hist", "log": self.log})
                     if got != exp:
                         self.t.violation("lookup_query_metadata:ensures result == view(path)(key)",
                                          f"stream #{i} ({r['desc']}): key {k!r} gives {got!r}, "
@@ -260,8 +269,15 @@ class Hist:
                                      hist, exp_out, outcome, rp)
             # root dataset recoverable from the derived query
             from func_adl import find_EventDataset
+            import evds as spec_evds
+            self.t.contract("C12: find_EventDataset == the single element of ds_calls (spec, native)")
             try:
                 root = find_EventDataset(s.query_ast)
+                dc = spec_evds.ds_calls(s.query_ast)
+                if len(dc) != 1 or dc[0] is not root:
+                    self.t.violation("find_EventDataset:ensures result == head(ds_calls(query))",
+                                     desc, hist, f"{len(dc)} dataset call(s) by the spec",
+                                     ast.unparse(root), rp)
                 if getattr(root, "_eds_object", None) is not ds:
                     self.t.violation("find_EventDataset:returns the root of this stream", desc,
                                      hist, ds.name, repr(getattr(root, "_eds_object", None)), rp)
@@ -437,3 +453,28 @@ def rootless(t):
                         "exception", "returned", {"kind": "roots", "which": name})
         except Exception:
             pass
+    # random queries with 0 / 1 / 2 / nested dataset calls: the finder against the spec ds_calls
+    import gen
+    import evds as spec_evds
+    rq = gen.random_queries(t.rng, 60 if t.tier == "quick" else 1500, 3)
+    for i, src in enumerate(rq):
+        variants = [src.replace("ds", "EventDataset('a')", 1),
+                    src.replace("ds", "EventDataset('a')"),
+                    src.replace("ds", "EventDataset(EventDataset('in'))", 1),
+                    src.replace("ds", "other")]
+        for v in variants:
+            q = ast.parse(v).body[0].value
+            dc = spec_evds.ds_calls(q)
+            t.case("roots:rand:" + v, len(dc) != 1, sample=v)
+            t.contract("find_EventDataset: result / refusal == spec ds_calls (native)")
+            try:
+                r = find_EventDataset(q)
+                if len(dc) != 1 or r is not dc[0]:
+                    t.violation("find_EventDataset:ensures result == head(ds_calls(query))", v, v,
+                                f"{len(dc)} dataset call(s) by the spec", ast.unparse(r),
+                                {"kind": "roots", "which": v})
+            except Exception:
+                if len(dc) == 1:
+                    t.violation("find_EventDataset:raises iff len(ds_calls(query)) != 1", v, v,
+                                "the single dataset call", "exception", {"kind": "roots", "which": v})
+
